@@ -11,11 +11,13 @@ ID = "C12"
 THEOREM = ("Ufo2ft.C12.C12_dispatch / C12_table18 / C12_unsupported_iff / C12_reject_version / C12_reject_backend / "
            "C12_width / C12_width_independent / C12_render_toCmds / C12_specTopo_id / C12_specTopo_visited / "
            "C12_specTopo_endPoint / C12_pipeline_draw_partial / C12_render_partial / C12_same / C12_names_content / "
-           "C12_names_same / C12_names_distinct / C12_names / C12_cff1_writable / C12_same_named")
+           "C12_names_same / C12_names_distinct / C12_names / C12_cff1_writable / C12_same_named / C12_glyphwise / "
+           "C12_plain_glyph / C12_glyphFn_injective_plain")
 PROOF_FILES = ["C12", "C12Names"]
 N = {"quick": 110, "thorough": 1800}
 NAMES_SHARE = 0.4    # extra fonts built with production names, as a share of N
 QUAD_SHARE = 0.15    # extra fonts with glyphs drawn with quadratic curves, as a share of N
+VAR_SHARE = 0.1      # extra fonts containing families of near-duplicate glyphs, as a share of N
 RULE = ("(1) dispatch, exhaustive in both tiers: PostProcessor.process on a real TrueType / CFF / CFF2 font with recording "
         "stand-ins for cffsubr.subroutinize, compreffor.compress and convertCFFToCFF2, for ALL 3 x 8 x 5 x 5 argument tuples "
         "input table {none,CFF,CFF2} x optimizeCFF {False,True,-1,0,1,2,3,7} x cffVersion {None,0,1,2,3} x subroutinizer "
@@ -59,6 +61,16 @@ RULE = ("(1) dispatch, exhaustive in both tiers: PostProcessor.process on a real
         "curve re-fitting step (qu2cu, simplification, ...) gated on one of the three options would change; built and compared "
         "under the same 18 (+4) combinations (the compiler has to turn every quadratic segment into the same cubic curve - exact "
         "degree elevation, then rounding - whatever the options are). "
+        "(6) families of near-duplicate glyphs: 0.1 N (at least 8) further fonts of stream 3 that additionally contain 1-2 "
+        "families = a base glyph of 2-3 closed contours (3-6 line/cubic segments each, integer coordinates, first point an on-curve "
+        "'line' point) and 2-4 glyphs derived from the base (or from an earlier member) by ONE structural edit, nearly always "
+        "with the base's advance width (10 %: a different one), inserted at random places of the glyph order: join / joinall "
+        "(two / all contours concatenated into one: same points, types and order, one rmoveto becomes an rlineto with the same "
+        "operands), split (the converse), dup, dupwidth (same outline, other width), shift (translated: all relative operands but "
+        "the first equal), polyline (every curve replaced by three lines: same flat operand list), reorder (contours rotated), "
+        "restart (another start point).  Every such font has at least one join/joinall/split member, i.e. two glyphs that an "
+        "encoder sharing work between look-alike glyphs (memo of specialised programs, subroutines) could confuse; built and "
+        "compared under the same 18 (+4) combinations, glyph by glyph. "
         "non-trivial = at least 3 outlined glyphs and all but at most 2 combinations successful (fonts); input table present "
         "(dispatch); drawing changed (spec); the observed rename map is not idempotent or renames at least 2 glyphs (names).")
 ASSUMED = [
@@ -71,6 +83,10 @@ ASSUMED = [
     "generated font incl. the quadratic-source stream (5)",
     "hmtx and GSUB/GPOS/GDEF are built by code that never reads the three options (modelFont copies them from the reference "
     "font); measured on every generated font",
+    "each glyph's charstring is produced from that glyph's pen commands and width alone (getCharStringForGlyph keeps no state "
+    "between glyphs): the model maps the reference drawings glyph by glyph (C12_glyphwise), so anything shared between glyphs "
+    "by the real encoders is outside the model and is measured - on every font, and specifically on the look-alike families "
+    "of stream (6)",
     "fontTools.cffLib.width.optimizeWidths is an input of the width model (any pair is proved correct)",
     "glyph identity: fontTools writes a 'CFF ' table by walking topDict.charset and looking each name up in CharStrings "
     "(modelled as `savedIndex`, tied by correspondence on every font of stream 4), addresses CFF2 charstrings by glyph index, "
@@ -405,6 +421,109 @@ def _quadratic(rng, case):
     return case
 
 
+# ------------------------------------------------------------------ families of near-duplicate glyphs
+
+def _vcontour(rng, x0, y0):
+    """a closed contour of 3-6 line / cubic segments on integer coordinates whose FIRST point is an on-curve 'line'
+    point (so the closing segment is the implied line, and cutting / concatenating point lists at 'line' points
+    cuts / concatenates the pen's command list without touching any operand)"""
+    pts = [[x0, y0, "line"]]
+    x, y = x0, y0
+    step = lambda: rng.choice([-1, 1]) * rng.randrange(10, 140)
+    for _ in range(rng.randrange(2, 6)):
+        if rng.random() < 0.3:
+            a, b = x + step(), y + step()
+            c, d = a + step(), b + step()
+            x, y = c + step(), d + step()
+            pts += [[a, b, None], [c, d, None], [x, y, "curve"]]
+        else:
+            x, y = x + step(), y + step()
+            pts.append([x, y, "line"])
+    return pts
+
+
+VARIANT_KINDS = ["join", "join", "joinall", "split", "split", "dup", "dupwidth", "shift", "polyline", "reorder", "restart"]
+_CUTS = ("join", "joinall", "split")
+
+
+def _variant(rng, kind, cs):
+    """a glyph outline derived from the contours `cs` by ONE structural edit; None when the edit does not apply.
+    join/joinall/split keep every point, its type and the order (only the partition into contours changes: one
+    rmoveto <-> rlineto with the same operands); dup/dupwidth keep everything; shift keeps all relative operands
+    but the first; polyline keeps the flat operand list (a curve becomes three lines); reorder keeps the set of
+    contours; restart keeps the shape"""
+    cp = lambda c: [list(p) for p in c]
+    cs = [cp(c) for c in cs]
+    if kind == "join" and len(cs) >= 2:
+        i = rng.randrange(len(cs) - 1)
+        return cs[:i] + [cs[i] + cs[i + 1]] + cs[i + 2:]
+    if kind == "joinall" and len(cs) >= 2:
+        return [[p for c in cs for p in c]]
+    if kind == "split":
+        where = [(i, j) for i, c in enumerate(cs) for j in range(2, len(c) - 1)
+                 if c[j][2] == "line" and sum(1 for p in c[j:] if p[2]) >= 2]
+        if where:
+            i, j = rng.choice(where)
+            return cs[:i] + [cs[i][:j], cs[i][j:]] + cs[i + 1:]
+        return None
+    if kind in ("dup", "dupwidth"):
+        return cs
+    if kind == "shift":
+        dx, dy = rng.randrange(-80, 80), rng.randrange(-80, 80)
+        return [[[p[0] + dx, p[1] + dy, p[2]] for p in c] for c in cs]
+    if kind == "polyline" and any(p[2] == "curve" for c in cs for p in c):
+        return [[[p[0], p[1], "line"] for p in c] for c in cs]
+    if kind == "reorder" and len(cs) >= 2:
+        r = rng.randrange(1, len(cs))
+        return cs[r:] + cs[:r]
+    if kind == "restart":
+        i = rng.randrange(len(cs))
+        where = [j for j in range(1, len(cs[i])) if cs[i][j][2] == "line"]
+        if where:
+            j = rng.choice(where)
+            return cs[:i] + [cs[i][j:] + cs[i][:j]] + cs[i + 1:]
+    return None
+
+
+def _variants(rng, case):
+    """add 1-2 families of near-duplicate glyphs to a font case: a base glyph of 2-3 contours and 2-4 glyphs derived
+    from it (or from an earlier member of the family) by one structural edit each, nearly always with the base's
+    advance width, at random places of the glyph order.  Every font gets at least one join/joinall/split member:
+    two glyphs whose pen commands carry the very same operands in the very same order and differ in ONE operator
+    (rmoveto <-> rlineto).  Whatever the encoder shares between glyphs that look alike to it (a memo of specialised
+    programs, subroutines, a de-duplicated charstring INDEX) is exercised by such a family."""
+    fd = case["fd"]
+    glyphs = fd["glyphs"]
+    kinds = []
+    for f in range(rng.choice([1, 1, 2])):
+        x0, y0 = rng.randrange(0, 300), rng.randrange(-100, 300)
+        base = []
+        for _ in range(rng.choice([2, 2, 3])):
+            base.append(_vcontour(rng, x0, y0))
+            x0, y0 = x0 + rng.randrange(-150, 300), y0 + rng.randrange(-150, 300)
+        w = rng.choice([g["width"] for g in glyphs] + [500, 437])
+        family = [("fam%d" % f, base, w)]
+        want = [rng.choice(_CUTS)] + [rng.choice(VARIANT_KINDS) for _ in range(rng.choice([1, 2, 3]))]
+        rng.shuffle(want)
+        for k in want:
+            src = family[0] if rng.random() < 0.7 else rng.choice(family)
+            v = _variant(rng, k, src[1])
+            if v is None:          # the edit does not apply to this member: the base always has two contours to join
+                k, src = "join", family[0]
+                v = _variant(rng, k, src[1])
+            vw = src[2]
+            if k == "dupwidth" or (k != "dupwidth" and rng.random() < 0.1):
+                vw = src[2] + rng.choice([1, -20, 0.5, 100])
+            family.append(("fam%d.%s%d" % (f, k, len(family)), v, vw))
+            kinds.append(k)
+        for nm, cs, gw in family:
+            glyphs.insert(rng.randrange(len(glyphs) + 1),
+                          {"name": nm, "width": gw, "unicodes": [], "contours": cs, "components": [], "anchors": []})
+    case["variants"] = sorted(set(kinds))
+    case["tol"] = rng.choice([None, None, None, 0.5])
+    return case
+
+
 _TRI = [[[0, 0, "line"], [120, 0, "line"], [60, 90, "line"]]]
 QUIRKS = [
     {"kind": "font", "lib": "ufoLib2", "degen": [], "quirk": "order-notdef-space",
@@ -466,6 +585,9 @@ def gen(rng, n, mode):
     # sources drawn with quadratic curves (TrueType-style splines), again a separate stream at the end
     for _ in range(max(6, int(n * QUAD_SHARE))):
         yield _quadratic(rng, _font(rng, mode))
+    # families of near-duplicate glyphs (same operands, one operator / the width / the start differs), again at the end
+    for _ in range(max(8, int(n * VAR_SHARE))):
+        yield _variants(rng, _font(rng, mode))
 
 
 # ------------------------------------------------------------------ running the implementation
@@ -753,9 +875,10 @@ def _run_font(case):
     tags = [case["lib"]] + ["degen:" + d for d in case.get("degen", [])]
     if case.get("quirk"):
         tags.append("quirk:" + case["quirk"])
-    elif not case.get("degen") and not nm and not case.get("quad"):
+    elif not case.get("degen") and not nm and not case.get("quad") and not case.get("variants"):
         tags.append("plain")
     tags += ["quadratic:" + q for q in case.get("quad", [])]
+    tags += ["variants:" + q for q in case.get("variants", [])]
     if any(p[2] == "qcurve" for g in fd["glyphs"] for c in g["contours"] for p in c):
         tags.append("has-qcurve")
     if nm:
@@ -1074,10 +1197,21 @@ LEVEL_TEXT = ("Proved for all inputs (Lean): the dispatcher of PostProcessor.pro
               "of source glyph k at glyph index k (C12_names_content), the stored names are pairwise distinct (C12_names_distinct) "
               "and the CFF 1 and CFF 2 builds store the same names (C12_names_same); C12_same extends to sources built with "
               "production names, for every glyph order that starts with '.notdef', with no side condition on the map "
-              "(C12_cff1_writable, C12_same_named). Tied to the code by an exhaustive run of the dispatcher and by "
+              "(C12_cff1_writable, C12_same_named). Glyph by glyph: the model's drawings for every combination are the reference drawings "
+              "mapped through one function of the combination (C12_glyphwise), a glyph without redundant operations is drawn as in "
+              "the reference whatever the other glyphs of the font are (C12_plain_glyph), and distinct such drawings stay distinct "
+              "(C12_glyphFn_injective_plain). Tied to the code by an exhaustive run of the dispatcher and by "
               "compiling random fonts under all 18 (+4) combinations with the real cffsubr/compreffor/CFF2 converter, with and "
-              "without production names, from line/cubic sources and from sources drawn with TrueType-style quadratic splines.")
-LEVEL_NOTE = ("Sources with quadratic curves (stream 5) are covered by observation only: nothing in the Lean model describes how a "
+              "without production names, from line/cubic sources, from sources drawn with TrueType-style quadratic splines, and from "
+              "fonts containing families of look-alike glyphs (same operands, one operator / the width / the start point different).")
+LEVEL_NOTE = ("Look-alike glyphs (stream 6) are covered by observation against the glyph-wise model: ufo2ft's getCharStringForGlyph has "
+              "no state shared between glyphs, so there is no mechanism to model; what is proved is that the MODEL never lets one "
+              "glyph's drawing depend on another (C12_glyphwise / C12_plain_glyph), and the declarative predicate holdsSame is "
+              "evaluated by the Lean driver on the observed fonts of families built so that a confusion of two glyphs (same operands, "
+              "rmoveto vs rlineto; same outline, other width; same flat operand list, curve vs three lines) changes a drawing: a failing "
+              "input that is not the specialiser finding (classify_failure requires model = observation).  What cffsubr/compreffor "
+              "share between glyphs (subroutines) is external and only measured.  "
+              "Sources with quadratic curves (stream 5) are covered by observation only: nothing in the Lean model describes how a "
               "qcurve segment becomes a curveTo (BasePen/T2CharStringPen, fontTools) or that the pre-processor's filter list is "
               "independent of optimizeCFF; the declarative predicate holdsSame (all supported combinations carry the same "
               "drawings, advances and layout) is evaluated by the Lean driver on the observed fonts, and the model's prediction "
